@@ -500,3 +500,21 @@ Proof.
       destruct (gap_count b o Hb Ho Hnt) as (_ & Hpos); unfold is_empty_range in He; lia.
   - intros Ht. rewrite (gap_none_when_touching b o Hb Ho Ht). reflexivity.
 Qed.
+
+(* the two cuts of the build pipeline in a row (size limit, then the configured last L2 block): what comes out is the
+   ORIGINAL certificate restricted to first block .. min(end kept by the size cut, configured maximum) *)
+Theorem limit_then_adapt (size : params -> N) (max : N) l c c1 r :
+  wf_span c -> events_in_range c -> limit_cert_size size max c = LDone c1 ->
+  l_max l <> 0 -> p_to c1 < U64 -> adapt_certificate l (Some c1) = Ok r ->
+  exists c2, r = Some c2 /\ c2 = restrict c (p_from c) (N.min (p_to c1) (l_max l)).
+Proof.
+  intros Hwf Hin HL Hm Hu HA.
+  pose proof (limit_result_is_filter size max c c1 Hwf Hin HL) as E1.
+  destruct (adapt_clamps l c1 r Hm Hu HA) as (c2 & -> & Hf & Ht & Hle & Hgt).
+  exists c2. split; [reflexivity|].
+  destruct (N.le_gt_cases (p_to c1) (l_max l)) as [Hc|Hc].
+  - rewrite (Hle Hc). rewrite N.min_l by exact Hc. exact E1.
+  - destruct (Hgt Hc) as (E2 & _). rewrite N.min_r by lia.
+    rewrite E2. rewrite E1 at 1 2. cbn [p_from restrict].
+    apply restrict_restrict. lia.
+Qed.
